@@ -60,7 +60,7 @@ fn deterministic_and_diverse() {
         assert_eq!(a.1, b.1);
         assert_eq!(a.2, b.2);
         // replay from the recorded schedule alone
-        let c = scenario(999_999, Strategy::Replay(a.1.clone()));
+        let c = scenario(seed, Strategy::Replay(a.1.clone())); // (the seed also decides whether after-effect points are scheduling points)
         assert_eq!(a.0, c.0, "replay differs for seed {seed}");
         assert_eq!(a.2, c.2);
         orders.insert(a.2.join(","));
